@@ -285,6 +285,10 @@ def judge_c07(run, res):
     tip = len(blocks) - 1
     if s.db.state.height != tip or bytes(s.db.state.tip) != blocks[-1].hash:
         return [('not-quiescent:index-not-at-daemon-tip', dict(db=s.db.state.height, daemon=tip))]
+    if s.mislabelled_reports:
+        # the mempool side of a notification is what the daemon listed at that very height
+        return [('mempool-reported-under-another-height-than-its-listing',
+                 dict(s.mislabelled_reports[0]))]
     ref = RefIndex(blocks, ACT)
     for cname, c in s.x_clients.items():
         if cname == 'rpc':
